@@ -25,6 +25,7 @@ type c17Cell struct {
 	Threads   []int  `json:"threads,omitempty"` // conc: Invalidate calls per thread
 	Adv       string `json:"adv,omitempty"`     // conc: "", "I-1ns", "I"
 	First     int    `json:"first"`
+	Reg       bool   `json:"reg,omitempty"` // conc: one more thread registers a further callback (under the Invalidator's own mutex)
 }
 
 func (c c17Cell) id() string { js, _ := json.Marshal(c); return string(js) }
@@ -48,6 +49,15 @@ func c17Cells(tier string) []Cell {
 					cells = append(cells, Cell{ID: c17Cell{Mode: "conc", Interval: iv, Callbacks: cb, Threads: p, Adv: adv}.id()})
 				}
 			}
+
+			// a callback is registered at run time, under the Invalidator's mutex, next to the callers
+			if cb > 0 {
+				for _, p := range [][]int{{1}, {1, 1}, {2}} {
+					for _, adv := range []string{"", "I"} {
+						cells = append(cells, Cell{ID: c17Cell{Mode: "conc", Interval: iv, Callbacks: cb, Threads: p, Adv: adv, Reg: true}.id()})
+					}
+				}
+			}
 		}
 	}
 
@@ -67,6 +77,9 @@ type c17h struct {
 	ncalls    int
 	panicIn   int  // id of the call whose last callback panics (-1: none)
 	cancelled bool // the next invalidate() passes an already cancelled context
+	mk        func(j int) func(ctx context.Context)
+	nreg      int         // callbacks registered so far (written under the Invalidator's mutex)
+	wantAt    map[int]int // per accepted call: callbacks registered at the moment its run started
 }
 
 // c17Panic is what a faulting callback panics with.
@@ -77,9 +90,11 @@ func newC17(cc c17Cell, points bool) *c17h {
 
 	h := &c17h{inv: &cache.Invalidator{SkipInterval: time.Duration(cc.Interval) * time.Second}, runStart: map[int]time.Time{}, panicIn: -1}
 
-	for j := 0; j < cc.Callbacks; j++ {
-		j := j
-		h.inv.Callbacks = append(h.inv.Callbacks, func(ctx context.Context) {
+	h.wantAt = map[int]int{}
+	h.nreg = cc.Callbacks
+
+	h.mk = func(j int) func(ctx context.Context) {
+		return func(ctx context.Context) {
 			h.inflight++
 			if h.inflight > 1 {
 				h.overlap = true
@@ -88,6 +103,7 @@ func newC17(cc c17Cell, points bool) *c17h {
 			if id, ok := ctx.Value(callIDKey{}).(int); ok && j == 0 {
 				h.runStart[id] = vclock.NowQuiet()
 				h.runOrder = append(h.runOrder, id)
+				h.wantAt[id] = h.nreg
 			}
 
 			if points {
@@ -100,7 +116,11 @@ func newC17(cc c17Cell, points bool) *c17h {
 			if id, ok := ctx.Value(callIDKey{}).(int); ok && id == h.panicIn && j == cc.Callbacks-1 {
 				panic(c17Panic{})
 			}
-		})
+		}
+	}
+
+	for j := 0; j < cc.Callbacks; j++ {
+		h.inv.Callbacks = append(h.inv.Callbacks, h.mk(j))
 	}
 
 	return h
@@ -406,6 +426,16 @@ func c17Conc(cc c17Cell, env *Env) CellResult {
 			})
 		}
 
+		if cc.Reg {
+			// run-time registration the way the exported embedded mutex allows it
+			vsched.SpawnThread("register", func() {
+				h.inv.Lock()
+				h.inv.Callbacks = append(h.inv.Callbacks, h.mk(h.nreg))
+				h.nreg++
+				h.inv.Unlock()
+			})
+		}
+
 		if cc.Adv != "" {
 			vsched.SpawnThread("clock", func() {
 				switch cc.Adv {
@@ -452,8 +482,14 @@ func c17Conc(cc c17Cell, env *Env) CellResult {
 			case c.err == nil:
 				accepted++
 
-				if got != wantCallbacks(cc.Callbacks) {
-					bad("callbacks", fmt.Sprintf("accepted call %d ran [%s], want [%s]", c.id, got, wantCallbacks(cc.Callbacks)))
+				want := wantCallbacks(cc.Callbacks)
+				if cc.Reg {
+					// the list as it was when the call was accepted (its run started, under the mutex)
+					want = wantCallbacks(h.wantAt[c.id])
+				}
+
+				if got != want {
+					bad("callbacks", fmt.Sprintf("accepted call %d ran [%s], want [%s] (all callbacks registered when the call was accepted)", c.id, got, want))
 				}
 			case errors.Is(c.err, cache.ErrAlreadyInvalidated):
 				if got != "" {
@@ -584,7 +620,7 @@ func init() {
 		ID: "C17", Title: "Invalidator runs all callbacks, at most once per SkipInterval",
 		Cells: c17Cells, Run: c17Run,
 		Rule: "(seq) BFS over sequences of {Invalidate, Invalidate whose last callback panics (caller recovers), Invalidate under an already cancelled context, SkipInterval changed on the live instance, Advance I-1ns, I, I+1ns, 1ns, Callbacks=nil, Callbacks=restored} for SkipInterval {default 15s, 1s} x callbacks {none,1,3} against the model accepted <=> now-lastAccepted >= I; " +
-			"(conc) 2-3 threads x 1-2 Invalidate calls plus a clock thread advancing by I-1ns or I, callbacks are harness functions with a scheduling point inside, all schedules within the bound: " +
+			"(conc) 2-3 threads x 1-2 Invalidate calls plus a clock thread advancing by I-1ns or I, callbacks are harness functions with a scheduling point inside, all schedules within the bound; the same with one more thread that registers a further callback under the Invalidator's own mutex (an accepted call runs the list as it is when it is accepted): " +
 			"no overlap, every accepted call runs every callback once in order before it returns, rejected calls run none and every rejection is explained by an accepted run less than SkipInterval earlier, number of accepted calls bounded by the elapsed virtual time",
 		Assumptions: []string{
 			"calls are attributed to callbacks through a context value",
